@@ -1,19 +1,14 @@
-"""C07 T-gen (round 8): control/call SKELETONS of the DataIndexes functions that cxx2coq cannot translate (range-for over the
-hash arrays, lambdas, try/catch, calls into sub-objects): the statement tree of a member function is dumped, generically and
-without interpretation, into the deep embedding ProtoSyntax.v (pstmt / pexpr, identifiers as strings).  What the tree MEANS is
-defined in Coq (ProtoSem.v: an interpreter over the hand model's index operations) and proved equal to the hand model there; a
-source change that reorders, drops or adds a call, changes a condition or an argument changes the generated term and breaks
-those proofs.  Built on tools/cxx2coq.py's AST loader only.
-
-Anything the dumper does not know becomes SOther/EOther "<clang kind>", which no interpreter accepts (broken tie, not a guess).
-"""
+"""C10 T-gen (deep embedding): the element hand-over loops of merge -- HashSet::pvMergeTo, HashSet::pvExtract, TreeSet::pvMergeTo,
+TreeSet::pvMergeToLinear, TreeSet::pvExtract -- capture the iterator in lambdas, which cxx2coq cannot translate.  Their statement trees are
+dumped generically and without interpretation into the syntax of coq/ProtoSyntaxC10.v (identifiers as strings); coq/ProtoMergeC10.v reads
+the dumped trees (a structural recogniser, no guessing: anything unexpected is `None`) and proves that they denote the loops of the hand
+model (Merge.hstep / tstep / lstep).  The generic dumper (expr / stmt / block) is the one of props/C07/proto2coq.py (via props/C02/c02_proto.py),
+copied so that C10 does not depend on another property's directory.  Unknown constructs become SOther / EOther "<clang kind>"."""
 import os, sys, json
 sys.path.insert(0, os.path.join(os.path.dirname(os.path.dirname(os.path.dirname(os.path.abspath(__file__)))), 'tools'))
 import cxx2coq
 from cxx2coq import TranslationError
 
-HERE = os.path.dirname(os.path.abspath(__file__))
-TU = os.path.join(HERE, 'inst_idx.cpp')
 
 WRAP = ('ParenExpr', 'ExprWithCleanups', 'MaterializeTemporaryExpr', 'ConstantExpr', 'CXXBindTemporaryExpr',
         'ImplicitCastExpr', 'CXXStaticCastExpr', 'CXXFunctionalCastExpr', 'CStyleCastExpr', 'SubstNonTypeTemplateParmExpr')
@@ -192,15 +187,6 @@ def stmt(n):
     return ['SOther %s' % q(k or '?')]
 
 
-_ast_cache = {}
-
-
-def load(repo, flt):
-    key = (repo, flt)
-    if key not in _ast_cache:
-        cfg = {'tu': TU, 'filter': flt, 'includes': [os.path.join(repo, 'include')]}
-        _ast_cache[key] = cxx2coq.load_objs(cxx2coq.dump_ast(cfg, repo))
-    return _ast_cache[key]
 
 
 def methods_of(node, name):
@@ -216,13 +202,6 @@ def methods_of(node, name):
     return out
 
 
-def nested(spec, name):
-    for m in spec.get('inner', []):
-        if m.get('kind') == 'CXXRecordDecl' and m.get('name') == name and any(x.get('kind') == 'CXXMethodDecl' for x in m.get('inner', [])):
-            return m
-    raise TranslationError('no nested class %s' % name)
-
-
 def params(m):
     return [p.get('name', '') for p in m.get('inner', []) if p.get('kind') == 'ParmVarDecl']
 
@@ -231,113 +210,28 @@ def body_of(m):
     return [c for c in m['inner'] if c.get('kind') == 'CompoundStmt'][0]
 
 
-# (Coq name, class path, method, number of parameters or None, index among the overloads with that arity)
-WANTED = [
-    ('AddRaw', [], 'AddRaw', 1, 0),
-    ('RemoveRaw', [], 'RemoveRaw', 1, 0),
-    ('UpdateRaw2', [], 'UpdateRaw', 2, 0),
-    ('UpdateRawCol', [], 'UpdateRaw', 4, 0),
-    ('GetFitUniqueHashIndex', [], 'GetFitUniqueHashIndex', 1, 0),
-    ('GetFitMultiHashIndex', [], 'GetFitMultiHashIndex', 1, 0),
-    ('U_Add2', ['UniqueHash'], 'Add', 2, 0),
-    ('U_AddMixed', ['UniqueHash'], 'Add', 1, 0),
-    ('U_RejectAdd0', ['UniqueHash'], 'RejectAdd', 0, 0),
-    ('U_RejectAdd1', ['UniqueHash'], 'RejectAdd', 1, 0),
-    ('U_AcceptAdd0', ['UniqueHash'], 'AcceptAdd', 0, 0),
-    ('U_AcceptAdd1', ['UniqueHash'], 'AcceptAdd', 1, 0),
-    ('U_PrepareRemove', ['UniqueHash'], 'PrepareRemove', 1, 0),
-    ('U_RejectRemove', ['UniqueHash'], 'RejectRemove', 0, 0),
-    ('U_AcceptRemove', ['UniqueHash'], 'AcceptRemove', 0, 0),
-    ('M_RejectAdd', ['MultiHash'], 'RejectAdd', 0, 0),
-    ('M_AcceptAdd', ['MultiHash'], 'AcceptAdd', 0, 0),
-    ('M_PrepareRemove', ['MultiHash'], 'PrepareRemove', 1, 0),
-    ('M_RejectRemove', ['MultiHash'], 'RejectRemove', 0, 0),
-    ('M_Find', ['MultiHash'], 'Find', 2, 0),
-]
+def emit(coqname, cls, m):
+    body = block(body_of(m))
+    return ['(* %s::%s(%s) *)' % (cls, m.get('name'), ', '.join(params(m))),
+            'Definition %s : list pstmt :=\n  %s.\n' % (coqname, lst(['\n   ' + s for s in body]))]
 
 
-def all_specs(objs, cls):
-    out = []
-    def walk(o):
-        if not isinstance(o, dict):
-            return
-        if o.get('kind') == 'ClassTemplateSpecializationDecl' and o.get('name') == cls and \
-                any(m.get('kind') in ('CXXMethodDecl', 'FunctionTemplateDecl') for m in o.get('inner', [])):
-            out.append(o)
-        if o.get('kind') in ('ClassTemplateDecl', 'NamespaceDecl', 'TranslationUnitDecl'):
-            for c in o.get('inner', []) or []:
-                walk(c)
-    for o in objs:
-        walk(o)
-    return out
-
-
-def find_method(specs, path, meth, arity, idx, must):
-    """the idx-th instantiated overload `meth` with `arity` parameters (whose dumped body mentions every string of `must`),
-    in the first specialization of the class that has one"""
-    seen = []
-    for spec in specs:
-        node = spec
-        try:
-            for p in path:
-                node = nested(node, p)
-        except TranslationError:
-            continue
-        ms = [m for m in methods_of(node, meth) if arity is None or len(params(m)) == arity]
-        seen += [len(params(m)) for m in methods_of(node, meth)]
-        if must:
-            ms = [m for m in ms if all(x in json.dumps(body_of(m)) for x in must)]
-        if len(ms) > idx:
-            return ms[idx]
-    raise TranslationError('%s::%s with %s parameters%s not found (instantiated overloads: %s)' %
-                           ('::'.join(path), meth, arity, ' mentioning %s' % must if must else '', seen))
-
-
-# DataTable<static column list>: (Coq name, method, arity, index, strings the body must mention)
-WANTED_TABLE = [
-    ('T_pvFill', 'pvFill', 2, 0, ['AddBackNogrow']),
-    ('T_pvSelect', 'pvSelect', 3, 0, ['GetFitUniqueHashIndex']),
-]
-
-
-def translate(repo='/repo', wanted=None):
-    objs = load(repo, 'DataIndexes')
-    specs = all_specs(objs, 'DataIndexes')
-    if not specs:
-        raise TranslationError('no specialization of DataIndexes in the AST dump')
-    out = ['(* GENERATED by props/C07/proto2coq.py from inst_idx.cpp (DataIndexes / DataTable over static column lists) -- do not edit *)',
-           'From Coq Require Import String List ZArith.', 'From C07 Require Import ProtoSyntax.', 'Import ListNotations.',
+def translate(tu, repo='/repo'):
+    out = ['(* GENERATED by props/C10/c10_proto.py from the clang AST of HashSet.h / TreeSet.h (' + os.path.basename(tu) + ') -- do not edit *)',
+           'From Coq Require Import String List ZArith.', 'From C10 Require Import ProtoSyntaxC10.', 'Import ListNotations.',
            'Local Open Scope string_scope.', 'Local Open Scope Z_scope.', '']
-    for ent in (wanted or WANTED):
-        coqname, path, meth, arity, idx = ent[:5]
-        must = ent[5] if len(ent) > 5 else None
-        m = find_method(specs, path, meth, arity, idx, must)
-        body = block(body_of(m))
-        out.append('(* %s::%s(%s) *)' % ('::'.join(['DataIndexes'] + path), meth, ', '.join(params(m))))
-        out.append('Definition %s_params : list string := %s.' % (coqname, lst([q(p) for p in params(m)])))
-        out.append('Definition %s : list pstmt :=\n  %s.\n' % (coqname, lst(['\n   ' + s for s in body])))
-    if wanted is None:
-        tspecs = all_specs(load(repo, 'DataTable'), 'DataTable')
-        if not tspecs:
-            raise TranslationError('no specialization of DataTable in the AST dump')
-        for coqname, meth, arity, idx, must in WANTED_TABLE:
-            m = find_method(tspecs, [], meth, arity, idx, must)
-            body = block(body_of(m))
-            out.append('(* DataTable::%s(%s) *)' % (meth, ', '.join(params(m))))
-            out.append('Definition %s_params : list string := %s.' % (coqname, lst([q(p) for p in params(m)])))
-            out.append('Definition %s : list pstmt :=\n  %s.\n' % (coqname, lst(['\n   ' + s for s in body])))
-        # every instantiated overload of the variadic template recursion pvSelectRec (one per remaining-equalities count,
-        # index kind and row-filter type): SelectModel.v checks that each is one of two shapes (same code) and interprets those
-        allrec = []
-        for sp in tspecs:
-            for m in methods_of(sp, 'pvSelectRec'):
-                allrec.append(lst(['\n    ' + x for x in block(body_of(m))]))
-        if not allrec:
-            raise TranslationError('no instantiation of DataTable::pvSelectRec')
-        out.append('(* DataTable::pvSelectRec: all %d instantiations *)' % len(allrec))
-        out.append('Definition T_pvSelectRec_all : list (list pstmt) :=\n  %s.\n' % lst(['\n   ' + x for x in allrec]))
+    for cls, wanted in (('HashSet', (('hash_pvMergeTo', 'pvMergeTo', 1), ('hash_pvExtract', 'pvExtract', 2))),
+                        ('TreeSet', (('tree_pvMergeTo', 'pvMergeTo', 1), ('tree_pvMergeToLinear', 'pvMergeToLinear', 1), ('tree_pvExtract', 'pvExtract', 2)))):
+        cfg = {'tu': tu, 'filter': cls, 'class': cls, 'includes': [os.path.join(repo, 'include')]}
+        objs = cxx2coq.load_objs(cxx2coq.dump_ast(cfg, repo))
+        spec = cxx2coq.find_spec(objs, cfg)
+        for coqname, nm, ar in wanted:
+            ms = [m for m in methods_of(spec, nm) if len(params(m)) == ar]
+            if len(ms) < 1:
+                raise TranslationError('%s::%s not instantiated' % (cls, nm))
+            out += emit(coqname, cls, ms[0])
     return '\n'.join(out) + '\n'
 
 
 if __name__ == '__main__':
-    print(translate(sys.argv[1] if len(sys.argv) > 1 else '/repo'))
+    print(translate(sys.argv[1], sys.argv[2] if len(sys.argv) > 2 else '/repo'))
